@@ -879,3 +879,21 @@ Proof.
 Qed.
 Lemma wit_valid b : b = 15 \/ b = 240 -> valid_img (wit_img b).
 Proof. intros [->| ->]; (split; [vm_compute; reflexivity|]; split; [apply cells_okb_ok; vm_compute; reflexivity|vm_compute; reflexivity]). Qed.
+
+(* ====================================================================================== *)
+(* shape pins: the erase/write sequences the real functions issue on a healthy flash (measured by the translator probe)
+   are the ones the model issues *)
+Definition ops_of (o : list out) : list (list Z) :=
+  flat_map (fun x => match x with OFlash op a n => [[op; a; n]] | _ => [] end) o.
+Definition v6_probe_img : list Z :=
+  blit (blit (blit (fill V6_SIZE 0) 0 (TAG5 ++ [6])) O6_GUID (fill GUID_SIZE 1)) O6_AUTHKEY (fill AUTHKEY_SIZE 1).
+Lemma C13_shape_thm :
+  ops_of (snd (fst (save_cfg CURRENT_CHK (fill CFG_SIZE 0) init_st))) = OPS_CFG_SAVE /\
+  ops_of (snd (save_state_now CURRENT_CHK init_st)) = OPS_STATE_SAVE /\
+  ops_of (snd (factory CURRENT_CHK 1 init_st)) = OPS_FACTORY_SAVE /\
+  ops_of (snd (fst (do_init CURRENT_CHK 0 init_st))) = OPS_INIT_BLANK /\
+  (let s6 := set_sector false (fit SEC_SIZE 255 v6_probe_img) init_st in
+   let '(s7, o, r) := do_init CURRENT_CHK 0 s6 in
+   ops_of o = OPS_INIT_V6 /\ r = 1 /\ INIT_V6_ACCEPTED = 1 /\
+   len (ops_of (snd (fst (do_init CURRENT_CHK 0 s7)))) = OPS_INIT_V7_COUNT).
+Proof. vm_compute. repeat split; reflexivity. Qed.
